@@ -197,18 +197,10 @@ let () =
                   if indexable && vi = 0 then begin
                     if not (z_check_index dflt lo o_len []) then
                       addf (Printf.sprintf "len observed=%s" (match o_len with OVal n -> string_of_z n | OExc _ -> "exception" | OPanic -> "PanicException"));
-                    let outside = ref [] in
                     List.iter (fun (i, o) ->
-                        if not (z_check_index dflt lo (OVal (llen lo)) [(i, o)]) then begin
-                          if in_ssize i then
-                            addf (Printf.sprintf "getitem i=%s got=%s" (string_of_z i) (show_out_val o))
-                          else begin
-                            match o with
-                            | OExc c when int_of_nat c = 2 -> outside := string_of_z i :: !outside
-                            | _ -> addf (Printf.sprintf "getitem i=%s outside-ssize_t got=%s" (string_of_z i) (show_out_val o))
-                          end
-                        end) gets;
-                    if !outside <> [] then addf "getitem index-outside-ssize_t raises OverflowError-not-IndexError"
+                        if not (z_check_index dflt lo (OVal (llen lo)) [(i, o)]) then
+                          addf (Printf.sprintf "getitem i=%s%s got=%s" (string_of_z i)
+                                  (if in_ssize i then "" else " outside-ssize_t") (show_out_val o))) gets
                   end;
                   if exports && not (z_check_view dflt lo o_view) then
                     addf (Printf.sprintf "view%s %s%s" where
